@@ -5,11 +5,30 @@ import OdlModel.Gen.LincombTree
 import OdlModel.Model.ElemOps
 open OdlModel OdlModel.Lincomb OdlModel.ElemOps
 
-/-- `lincomb size=N blas=0|1 x1=ID x2=ID out=ID a=C b=C n=LEN m0=… m1=… m2=…`
-answers `ok m0=… m1=… m2=…` (all three buffers after the call). -/
+/-- Descriptor field `lay=<6 bits>`: c/f contiguity of x1.data, x2.data, out.data;
+`dd`/`nb`/`tb` = dtypes differ / dtype not BLAS / too big. -/
+def parseDesc (l : Line) : Option Desc := do
+  let lay ← l.get? "lay"
+  let bits := lay.toList.map (· == '1')
+  if bits.length ≠ 6 then none
+  let g (i : Nat) := bits.getD i false
+  let dd ← l.bool? "dd"
+  let nb ← l.bool? "nb"
+  let tb ← l.bool? "tb"
+  some ⟨⟨g 0, g 1⟩, ⟨g 2, g 3⟩, ⟨g 4, g 5⟩, dd, nb, tb⟩
+
+def contigDesc : Desc := ⟨⟨true, true⟩, ⟨true, true⟩, ⟨true, true⟩, false, false, false⟩
+
+def regimeName : Regime → String
+  | .small => "small" | .fallback => "fallback" | .blas => "blas"
+
+/-- `lincomb size=N lay=… dd= nb= tb= x1=ID x2=ID out=ID a=C b=C n=LEN m0=… m1=… m2=…`
+answers `ok blas=<0|1> reg=<regime> leaf=<primitive trace> m0=… m1=… m2=…`
+(the model's `_blas_is_applicable`, the regime, the leaf of the dispatch that runs, and all
+three buffers after the call). -/
 def doLincomb (l : Line) : Option String := do
   let size ← l.nat? "size"
-  let blas ← l.bool? "blas"
+  let d ← parseDesc l
   let x1 ← l.nat? "x1"
   let x2 ← l.nat? "x2"
   let out ← l.nat? "out"
@@ -26,12 +45,44 @@ def doLincomb (l : Line) : Option String := do
     | 0 => a0.getD i 0
     | 1 => a1.getD i 0
     | _ => a2.getD i 0
-  match lincombImpl Gen.Lincomb.thrSmall Gen.Lincomb.thrMedium Gen.Lincomb.fbGuard
-      Gen.Lincomb.zeroGuard Gen.Lincomb.prog size blas ⟨x1, x2, out⟩ a b mem with
+  let P := Gen.Lincomb.params
+  let A : Args := ⟨x1, x2, out⟩
+  let blasOk := P.blasTree.eval d
+  let reg := regime P.thrSmall P.thrMedium size blasOk
+  let zero := P.zeroGuard && decide (a = 0) && decide (b = 0)
+  let leaf : String :=
+    if zero then "zeroguard"
+    else match reg with
+      | .small => "direct"
+      | _ =>
+        let t := P.prog.trace A a b
+        let t2 := if t.contains "recurse" then
+            t ++ (if P.zeroGuard && decide (a + b = 0) then ["zeroguard"]
+                  else P.prog.trace { A with x2 := A.x1 } (a + b) 0)
+          else t
+        if t2.isEmpty then "noop" else "+".intercalate t2
+  match lincombImpl P size d A a b mem with
   | none => some "err:depth"
   | some m' =>
     let dump (b : Nat) := showCList ((List.range n).map (m' b))
-    some s!"ok m0={dump 0} m1={dump 1} m2={dump 2}"
+    some s!"ok blas={if blasOk then 1 else 0} reg={regimeName reg} leaf={leaf} m0={dump 0} m1={dump 1} m2={dump 2}"
+
+/-- `leaves` : every distinct leaf trace of the extracted dispatch over the 5 alias patterns
+and all scalar classes (used by the harness as the list of model branches to hit). -/
+def doLeaves (_l : Line) : Option String :=
+  let P := Gen.Lincomb.params
+  let aliases : List Args := [⟨0, 1, 2⟩, ⟨0, 0, 2⟩, ⟨0, 1, 0⟩, ⟨0, 1, 1⟩, ⟨0, 0, 0⟩]
+  let scal : List CRat := [0, 1, ⟨-1, 0⟩, 2, ⟨-2, 0⟩]
+  let all := aliases.flatMap fun A => scal.flatMap fun a => scal.map fun b =>
+    if P.zeroGuard && decide (a = 0) && decide (b = 0) then "zeroguard"
+    else
+      let t := P.prog.trace A a b
+      let t2 := if t.contains "recurse" then
+          t ++ (if P.zeroGuard && decide (a + b = 0) then ["zeroguard"]
+                else P.prog.trace { A with x2 := A.x1 } (a + b) 0)
+        else t
+      if t2.isEmpty then "noop" else "+".intercalate t2
+  some ("ok leaves=" ++ ",".intercalate all.eraseDups)
 
 /-- Entry-wise specification of the derived element arithmetic:
 `elem op=<name> x=… y=… c=…` answers the entry-wise formula. -/
@@ -62,9 +113,8 @@ def doElem (l : Line) : Option String := do
     | _ => none
   some s!"ok r={showCList r}"
 
-def tensorLC (size : Nat) (blas : Bool) : LC CRat := fun A a b m =>
-  lincombImpl Gen.Lincomb.thrSmall Gen.Lincomb.thrMedium Gen.Lincomb.fbGuard
-    Gen.Lincomb.zeroGuard Gen.Lincomb.prog size blas A a b m
+def tensorLC (size : Nat) (_blas : Bool) : LC CRat := fun A a b m =>
+  lincombImpl Gen.Lincomb.params size contigDesc A a b m
 
 def memOf (bufs : List (List CRat)) : Mem CRat :=
   let arrs := bufs.toArray.map (·.toArray)
@@ -95,27 +145,30 @@ def doElemOp (l : Line) : Option String := do
   let junk : List CRat := List.replicate n ⟨77, 0⟩
   let m := memOf [x, y, junk]
   let yi := if alias then 0 else 1
-  let divisorZero : Bool :=
+  -- element divisors with a zero entry: outside exact arithmetic (NumPy gives inf/nan);
+  -- a scalar zero divisor is inside the model: `Op.exec` returns `none` (the call raises)
+  let divisorZeroEntry : Bool :=
     match op with
     | .divE | .idivE => ((List.range n).any fun i => m yi i = 0)
     | .rdivS | .rdivE => ((List.range n).any fun i => m 0 i = 0)
-    | .divS | .idivS => c = 0
     | _ => false
-  if divisorZero then some "err:div0" else
+  if divisorZeroEntry then some "undef:div0entry" else
   match op.exec (tensorLC n false) 0 yi 2 c m with
-  | none => some "err:depth"
+  | none => some "raises"
   | some (m', r) =>
     let dump (b : Nat) := showCList ((List.range n).map (m' b))
     some s!"ok r={r} res={dump r} x={dump 0} y={dump yi}"
 
-/-- `ipow p=P n=LEN x=…` : the generic `__ipow__` recursion for a natural exponent. -/
+/-- `ipow p=P n=LEN x=…` : the generic `__ipow__` recursion for an INTEGER exponent
+(`p < 0`: `x **= -p` then `divide(one(), x, out=x)`). -/
 def doIpow (l : Line) : Option String := do
-  let p ← l.nat? "p"
+  let p ← l.int? "p"
   let n ← l.nat? "n"
   let x ← l.crats? "x"
   let m := memOf [x, List.replicate n ⟨77, 0⟩]
-  match ipow (tensorLC n false) 0 1 p m with
-  | none => some "err:depth"
+  if p < 0 && ((List.range n).any fun i => m 0 i = 0) then some "undef:div0entry" else
+  match ipowInt (tensorLC n false) 0 1 p m with
+  | none => some "raises"
   | some m' => some s!"ok x={showCList ((List.range n).map (m' 0))}"
 
 /-- `plincomb a=C b=C xs=ids ys=ids os=ids sizes=… bufs=b0|b1|…` : product-space lincomb over
@@ -158,6 +211,7 @@ def handle (l : Line) : Option String :=
   | "ipow" => doIpow l
   | "plincomb" => doPLincomb l
   | "front" => doFront l
+  | "leaves" => doLeaves l
   | _ => none
 
 def main : IO Unit := driverLoop handle
